@@ -19,8 +19,9 @@ import (
 // the user/group, else the wildcard limit, else none.
 
 type c05Lim struct {
-	res  map[string]int64 // nil = no resource limit
-	apps uint64
+	res      map[string]int64 // nil = no resource limit
+	apps     uint64
+	wildcard bool // the entry that applies is the wildcard one
 }
 
 type c05Table struct {
@@ -83,6 +84,7 @@ func (t *c05Table) user(q, u string) (c05Lim, bool) {
 		return l, true
 	}
 	l, ok := t.users[q]["*"]
+	l.wildcard = ok
 	return l, ok
 }
 
@@ -149,6 +151,9 @@ func limitDiffClass(max map[string]int64, apps uint64, ref c05Lim) string {
 	case inForce && !configured:
 		return "stale"
 	case !inForce && configured:
+		if ref.wildcard {
+			return "lost-wildcard"
+		}
 		return "lost"
 	}
 	return "different"
@@ -362,6 +367,21 @@ var c05Layouts = []string{
 	c05Conf("u u1 4 -", "u u1 3 -", "", "g g2 1 -"),  // 8 named user on two levels, group on the other leaf
 }
 
+// a reservation made while the user quota allowed the ask; the user's usage then grows through an RM-placed allocation
+func scnUGMReserve(name string) *world.Scenario {
+	s := scnUGM(name, []string{c05Conf("", "", "u u1 3 -", "")}, []string{"SCHEDULE", "ASK", "ASK_BOUND", "RELEASE"}, nil)
+	s.Reserve = true
+	s.Nodes = []world.NodeSpec{{ID: "n1", Cap: world.M(2)}, {ID: "n2", Cap: world.M(2)}}
+	s.Asks = []world.AskSpec{
+		{Key: "a1", App: "app1", Res: world.M(2), Create: 1001},
+		{Key: "c1", App: "app3", Res: world.M(2), Create: 1002},
+		{Key: "x1", App: "app1", Res: world.M(1), Create: 1003},
+		{Key: "a3", App: "app1", Res: world.M(1), Create: 1004, BoundNode: "n1"},
+	}
+	s.Prefix = []world.Op{op("NODE_ADD", "n1"), op("NODE_ADD", "n2"), op("APP_ADD", "app1"), op("APP_ADD", "app3"), op("ASK", "a1"), op("SCHEDULE"), op("ASK", "c1"), op("SCHEDULE"), op("ASK", "x1"), op("SCHEDULE")}
+	return s
+}
+
 func scnUGM(name string, confs []string, alphabet []string, prefix []world.Op) *world.Scenario {
 	return &world.Scenario{
 		Name:    name,
@@ -393,6 +413,9 @@ func init() {
 		quick = append(quick, Run{Scenario: n, Depth: 6, MapModes: []int{1}})
 		thorough = append(thorough, Run{Scenario: n, Depth: 8, MapModes: []int{1, 2}})
 	}
+	mc.Register(&mc.ScenarioDef{Scn: scnUGMReserve("ugm-reserve"), Monitors: []mc.Monitor{monC05()}})
+	quick = append(quick, Run{Scenario: "ugm-reserve", Depth: 5, MapModes: []int{1}})
+	thorough = append(thorough, Run{Scenario: "ugm-reserve", Depth: 7, MapModes: []int{1, 2}})
 	reload := []string{"SCHEDULE", "ASK", "RELEASE", "APP_ADD", "CONFIG"}
 	mc.Register(&mc.ScenarioDef{Scn: scnUGM("ugm-reload", c05Layouts, reload, []world.Op{op("NODE_ADD", "n1"), op("APP_ADD", "app1"), op("ASK", "a1"), op("SCHEDULE")}), Monitors: []mc.Monitor{monC05()}})
 	mc.Register(&mc.ScenarioDef{Scn: scnUGM("ugm-reload-2apps", c05Layouts, reload, []world.Op{op("NODE_ADD", "n1"), op("APP_ADD", "app1"), op("ASK", "a1"), op("SCHEDULE"), op("APP_ADD", "app3"), op("ASK", "c1"), op("SCHEDULE")}), Monitors: []mc.Monitor{monC05()}})
